@@ -310,11 +310,8 @@ def run(prop, tier, seed, replay=None):
         "impl_builds": [l for l, _ in impls],
         "known_findings_reproduced": len(known_lines),
     }
-<<<<<<< HEAD
     coverage.update({k: v for k, v in extra_coverage.items() if k not in coverage})
-=======
     coverage.update(prop.extra_coverage())
->>>>>>> ag_c19
     core.write_evidence(pid, tier, seed, coverage, list(prop.assumptions), wall, 1 if status else 0, level=prop.level)
 
     for l in known_lines:
